@@ -622,3 +622,27 @@ def _gate_pre(eng, fr):
 
 gate.pre_state = _gate_pre
 UNITS.append(gate)
+
+
+# ------------------------------------------------------------------------------ --multiprocess means one contig per process
+# the conservation units above cover the contig-per-process job list (every contig with reads in exactly one job, the unmapped bin
+# first); the binned region mode skips molecules without a site.  run_multiome_tagging has to force the contig-per-process
+# mode whenever --multiprocess is given, for every method.
+def _mp_switch(f):
+    import ast
+    return blocks.find_nodes(f, lambda n: isinstance(n, ast.If) and ast.unparse(n.test).startswith('args.multiprocess')
+                             and any(isinstance(x, ast.Assign) and ast.unparse(x.targets[0]) == 'one_contig_per_process' for x in n.body)
+                             and 'assignment_radius' not in ast.unparse(n))[-1:]      # the unconditional one (an earlier one sits under -assignment_radius)
+
+
+mp_switch = Contract(
+    PROP, FT + '::run_multiome_tagging', name='run_multiome_tagging[--multiprocess forces one contig per process, every method]',
+    block=_mp_switch,
+    params={'args': lambda e, n: Obj('Namespace', {'multiprocess': named(BOOL, 'multiprocess'), 'method': named(STR, 'method'),
+                                                   'assignment_radius': None})},
+    pre_state=lambda eng, fr: fr.env.update({'one_contig_per_process': named(BOOL, 'one_contig_per_process_before')}),
+    ensures={'contig_per_process_whenever_multiprocess': 'implies(args.multiprocess, one_contig_per_process == True)'},
+    raises={},
+    assumptions=['the flag is handed to tag_multiome_multi_processing unchanged (its job-list units above)'],
+)
+UNITS.append(mp_switch)
